@@ -157,7 +157,9 @@ func checkRace(rl *raceLog, rc *RunCtx) {
 		}
 		key, ok := RaceKey(rep)
 		if !ok {
-			key = "race:harness-only"
+			// no frame of ozanh/ugo in either access: not about the code under test (counted, not a verdict)
+			rc.Probe("race-report-without-ugo-frame(ignored)")
+			continue
 		}
 		if len(rep) > 6000 {
 			rep = rep[:6000] + "\n...[truncated]"
@@ -169,7 +171,28 @@ func checkRace(rl *raceLog, rc *RunCtx) {
 
 // execOne runs one index (search or replay) including race-log polling.
 func execOne(e *Engine, rl *raceLog, rc *RunCtx) {
-	e.Run(rc)
+	// every run executes under a watchdog: code under test that spins or blocks without executing VM
+	// instructions cannot be ended by the step cap; such a run is reported and the process is not reused
+	limit := 60 * time.Second
+	if e.RunTimeout > 0 {
+		limit = e.RunTimeout
+	}
+	inner := *rc
+	done := make(chan struct{})
+	tm := time.NewTimer(limit) // created before the run starts (no timer set-up concurrent with a scheduler run)
+	defer tm.Stop()
+	go func() {
+		defer close(done)
+		e.Run(&inner)
+	}()
+	select {
+	case <-done:
+		*rc = inner
+	case <-tm.C:
+		rc.Viol = &Violation{Class: "hang", Key: "hang:run-does-not-finish", Detail: fmt.Sprintf("the run did not finish within %v (it neither returns nor executes VM instructions that the step cap could stop); run index %d", limit, rc.Index)}
+		rc.Fatal = true
+		rc.Sig = ""
+	}
 	if rl != nil {
 		// a race outranks whatever else the run found: it is the arm's oracle
 		// (a run that left threads blocked for real is torn down without
@@ -182,6 +205,22 @@ func execOne(e *Engine, rl *raceLog, rc *RunCtx) {
 	}
 }
 
+// StartMemoryWatchdog ends the process (exit 3) when its heap passes 6 GiB: a runaway workload — or code under test
+// that allocates without bound — must not take the sandbox down; the parent attributes the death to the run in progress.
+func StartMemoryWatchdog(label string) {
+	go func() {
+		var ms runtime.MemStats
+		for {
+			time.Sleep(500 * time.Millisecond)
+			runtime.ReadMemStats(&ms)
+			if ms.HeapAlloc > 6<<30 {
+				fmt.Fprintf(os.Stderr, "memory watchdog: heap %d MiB while executing %s\n", ms.HeapAlloc>>20, label)
+				os.Exit(3)
+			}
+		}
+	}()
+}
+
 // Worker executes a shard of run indexes and prints a WorkerResult.
 func Worker(prop, tier string, seed int64, shard, of, runs int, arm string, deadline time.Time, progress string) int {
 	e := Lookup(prop)
@@ -190,18 +229,7 @@ func Worker(prop, tier string, seed int64, shard, of, runs int, arm string, dead
 		return 2
 	}
 	rl := newRaceLog()
-	// memory watchdog: a runaway workload must not take the sandbox down
-	go func() {
-		var ms runtime.MemStats
-		for {
-			time.Sleep(500 * time.Millisecond)
-			runtime.ReadMemStats(&ms)
-			if ms.HeapAlloc > 6<<30 {
-				fmt.Fprintf(os.Stderr, "memory watchdog: heap %d MiB while executing %s shard %d/%d\n", ms.HeapAlloc>>20, prop, shard, of)
-				os.Exit(3)
-			}
-		}
-	}()
+	StartMemoryWatchdog(fmt.Sprintf("%s shard %d/%d", prop, shard, of))
 	res := WorkerResult{Discarded: map[string]int{}, Faults: map[string]int{}, Probes: map[string]int{}}
 	sigs := map[uint64]struct{}{}
 	var pf *os.File
@@ -309,6 +337,7 @@ func ReplayFile(path string) (*ViolationRecord, *RunCtx, error) {
 	if vr.Arm == "race" && rl == nil {
 		return &vr, nil, errors.New("replay of a race-arm violation needs the race build (use ./check <prop> --replay <file>)")
 	}
+	StartMemoryWatchdog("replay of " + path)
 	rc := &RunCtx{Prop: vr.Property, Tier: vr.Tier, Seed: vr.Seed, Index: vr.Index, Arm: vr.Arm, T: ReplayTape(vr.Tape), ReplayBlob: vr.Blob}
 	if vr.Viol.Class == "worker-crash" && len(vr.Tape) == 0 {
 		// the worker died inside this run: re-execute the run index itself
@@ -348,7 +377,7 @@ func ShrinkFile(in, out string) error {
 		if rc.Fatal {
 			poisoned = true // a thread is blocked for real: this process cannot run further candidates
 		}
-		if rc.Viol != nil && rc.Viol.Key == vr.Viol.Key {
+		if rc.Viol != nil && (rc.Viol.Key == vr.Viol.Key || rc.Viol.Class == "data-race" && vr.Viol.Class == "data-race") {
 			last = rc
 			return rc.T.Used(), true
 		}
@@ -456,11 +485,10 @@ func runArm(e *Engine, o Options, bin, arm string, runs int, wallCap float64) (*
 			if !deadline.IsZero() {
 				args = append(args, "--deadline", strconv.FormatInt(deadline.UnixNano(), 10))
 			}
-			prog := ""
-			if e.Crashy {
-				prog = filepath.Join(tmp, fmt.Sprintf("progress.%d", w))
-				args = append(args, "--progress", prog)
-			}
+			// every worker records the run index it is executing: a worker that dies (fatal runtime error, memory
+			// watchdog, a Go panic escaping from code under test) is attributed to that run and re-executed in a fresh process
+			prog := filepath.Join(tmp, fmt.Sprintf("progress.%d", w))
+			args = append(args, "--progress", prog)
 			cmd := exec.Command(bin, args...)
 			cmd.Env = append(os.Environ(), "GOMAXPROCS=2")
 			if arm == "race" {
@@ -497,7 +525,7 @@ func runArm(e *Engine, o Options, bin, arm string, runs int, wallCap float64) (*
 	sigs := map[uint64]struct{}{}
 	for _, r := range out {
 		if r.err != nil {
-			if e.Crashy && strings.HasPrefix(r.errb, "CRASHIDX=") {
+			if strings.HasPrefix(r.errb, "CRASHIDX=") {
 				line := r.errb
 				if i := strings.Index(line, "\n"); i >= 0 {
 					line = line[:i]
@@ -667,6 +695,10 @@ func RunCheck(o Options) int {
 			code = 2
 		}
 		reproduced := code == 1 && strings.Contains(string(ob), "REPRODUCED key="+final.Viol.Key)
+		if !reproduced && final.Viol.Class == "data-race" && code == 1 && strings.Contains(string(ob), "class=data-race") {
+			// a run with several races: which pair the detector reports first is its own business
+			reproduced = true
+		}
 		if v.Viol.Class == "worker-crash" {
 			reproduced = code != 0 && code != 1 || strings.Contains(string(ob), "fatal error") || strings.Contains(string(ob), "panic:")
 			if !reproduced {
@@ -793,6 +825,9 @@ func raceEnv(arm string) []string {
 var crashRe = regexp.MustCompile(`(?m)^(fatal error|panic): (.*)$`)
 
 func crashKey(out string) string {
+	if strings.Contains(out, "memory watchdog: heap") {
+		return "crash:memory-watchdog"
+	}
 	if m := crashRe.FindStringSubmatch(out); m != nil {
 		msg := regexp.MustCompile(`[0-9]+`).ReplaceAllString(m[2], "N")
 		return "crash:" + m[1] + ":" + truncate(msg, 80)
